@@ -39,6 +39,10 @@ type e4Config struct {
 	GrantMax int `json:"grantMax,omitempty"`
 	// PingDelayMs: the broker answers PINGREQ that much later
 	PingDelayMs int `json:"pingDelayMs,omitempty"`
+	// OnErrorCalls: the OnError callback reads the client's statistics and current BaseClient (an application logging them)
+	OnErrorCalls bool `json:"onErrorCalls,omitempty"`
+	// KeepAliveS: the keep-alive value requested in CONNECT (WithKeepAlive), seconds
+	KeepAliveS int `json:"keepAliveS,omitempty"`
 }
 
 type e4Step struct {
@@ -190,21 +194,21 @@ type e4Env struct {
 	// callbacks may still run after the case returned: they append here (under mu), the result gets a copy
 	handled  []e4Handled
 	onErrors []e4OnErr
-	pushed  *int64 // reconnect loop passed "tasks pushed" this many times
-	hookMu  sync.Mutex
-	pending []*e4HookAction // actions waiting for the next passage of the loop through their site
-	active  int64           // ConnState(Active) callbacks
-	ctx     context.Context
-	c       e4Case
-	log     *vLog
-	b       *vbroker
-	d       *vdialer
-	rc      *RetryClient
-	cli     ReconnectClient
-	res     *e4Result
-	mu      sync.Mutex
-	curH    int32
-	connCh  chan struct{}
+	pushed   *int64 // reconnect loop passed "tasks pushed" this many times
+	hookMu   sync.Mutex
+	pending  []*e4HookAction // actions waiting for the next passage of the loop through their site
+	active   int64           // ConnState(Active) callbacks
+	ctx      context.Context
+	c        e4Case
+	log      *vLog
+	b        *vbroker
+	d        *vdialer
+	rc       *RetryClient
+	cli      ReconnectClient
+	res      *e4Result
+	mu       sync.Mutex
+	curH     int32
+	connCh   chan struct{}
 }
 
 func (e *e4Env) handler(n int) Handler {
@@ -448,6 +452,12 @@ func e4RunBody(c e4Case, started chan<- *e4Env) (res *e4Result) {
 		if c.Cfg.OnErrorSleepUs > 0 {
 			time.Sleep(time.Duration(c.Cfg.OnErrorSleepUs) * time.Microsecond)
 		}
+		if c.Cfg.OnErrorCalls {
+			_ = rc.Stats()
+			if bc := rc.Client(); bc != nil {
+				_ = bc.Err()
+			}
+		}
 	}
 	e.rc = rc
 	e.pushed = new(int64)
@@ -578,6 +588,9 @@ func e4RunBody(c e4Case, started chan<- *e4Env) (res *e4Result) {
 		go func() {
 			defer close(connDone)
 			copts := []ConnectOption{WithCleanSession(c.Cfg.CleanSession)}
+			if c.Cfg.KeepAliveS > 0 {
+				copts = append(copts, WithKeepAlive(uint16(c.Cfg.KeepAliveS)))
+			}
 			cctx, ccancel := context.WithCancel(ctx)
 			_, err := cli.Connect(cctx, "verif-client", copts...)
 			if c.Cfg.CancelConnectCtx {
@@ -1081,7 +1094,8 @@ func e4GenConfig(rt *rapid.T) e4Config {
 		OnErrorSleepUs: rapid.SampledFrom([]int{0, 0, 0, 1500, 3000}).Draw(rt, "onErrorSleepUs"),
 		GrantMax:       rapid.SampledFrom([]int{0, 0, 0, 1, 2}).Draw(rt, "grantMax"),
 		// DirectlyPublishQoS0: QoS0 messages bypass the queue (C03 forces the default mode, which is what it speaks of)
-		DirectQoS0: rapid.IntRange(0, 3).Draw(rt, "directQoS0") == 0,
+		DirectQoS0:   rapid.IntRange(0, 3).Draw(rt, "directQoS0") == 0,
+		OnErrorCalls: rapid.IntRange(0, 2).Draw(rt, "onErrorCalls") == 0,
 	}
 }
 
